@@ -410,6 +410,10 @@ class _ExprAnalyser:
                 # TYPE_T is used to handle cases where a type can occur in call or
                 # attribute conditions, like Flag.foo or MyStruct({...})
                 return [TYPE_T(t)]
+            if isinstance(t, type) and issubclass(t, VyperType):
+                # a parametrizable type (Bytes, String, DynArray, HashMap)
+                # used where a value is expected, e.g. `uint256[Bytes[2]]`
+                raise InvalidType(f"'{name}' is a type, it cannot be used as a value", node)
 
             return [t.typ]
 
